@@ -7,6 +7,7 @@ import (
 	"math"
 	"math/rand"
 	"strconv"
+	"strings"
 
 	"github.com/fluhus/biostuff/formats/newick"
 )
@@ -79,7 +80,7 @@ func nwBuild(flat []nwNode, dist func(i int) float64) *newick.Node {
 func nwReadAll(data []byte) (trees [][]nwNode, gotErr bool, panicked bool) {
 	trees = [][]nwNode{}
 	panicked, _ = catch(func() {
-		for n, err := range newick.Reader(bytes.NewReader(data)) {
+		for n, err := range newick.Reader(deliver(data)) {
 			if err != nil {
 				gotErr = true
 				continue
@@ -334,6 +335,10 @@ func newickDrive(args []string) error {
 			continue
 		}
 		r := newRand(int64(sid) + 5000)
+		readDelivery = []int{0, 0, 1, 0, 2, 3}[sid%6]
+		if sid < 8 { // (the large trees of the first sessions: all at once or in 4096-byte reads)
+			readDelivery = []int{0, 3}[sid%2]
+		}
 		ntrees := 1
 		if sid%3 == 0 {
 			ntrees = 1 + r.Intn(10)
@@ -357,6 +362,12 @@ func newickDrive(args []string) error {
 			root := nwRandTree(r, n, chain)
 			if c := sid - 2*len(big); c >= 0 && c < 3 { // deep and branching at every level (beyond 1024 levels)
 				root = nwComb(r, 1100, c)
+				ev.Small = false
+			}
+			if sid%7 == 3 && k == 0 && len(root.Children) > 0 { // names longer than a read buffer: plain, needing quotes, with quotes inside
+				n := []int{4096, 5000, 70000, 4095}[(sid/7)%4]
+				long := strings.Repeat("n", n)
+				root.Children[0].Name = []string{long, "a " + long, long + " z", long[:n/2] + "'" + long[n/2:], "(" + long}[(sid/7)%5]
 				ev.Small = false
 			}
 			if sid%3 == 0 && sid%2 == 1 && k == 0 { // the stream begins with a name: a lone node first
